@@ -1,13 +1,14 @@
 (* Proofs/Roles.v — C11: invariants of the PSET v2 role state machine (Model/Roles.v).
 
    Proved for every start packet built by [init] and every operation list:
-     counts_match, no_duplicate_outpoints, modifiable_respected (one step from ANY state),
-     kinds_compatible (no time-only input next to a height-only one).
-   The statements that today's code violates are kept visible with a proved _partial (the
-   domain where they hold) and a _refuted witness (vm_compute) replayed on the real code by
-   the S oracle (harness/rolescheck.go, corpus/hist.txt):
-     locktime_is_max_of_selected_kind, multi_part_ops_atomic, finalized_inputs_frozen,
-     reachable_roundtrips. *)
+     counts_match, no_duplicate_outpoints, kinds_compatible; from ANY state and for ANY operation:
+     modifiable_respected, locktime_is_max_of_selected_kind (full since fix 3710385),
+     multi_part_ops_atomic (full for every multi-part operation but the blinder since fix fd68736).
+   What today's code still violates is kept visible with a proved _partial and a _refuted witness
+   (vm_compute) replayed on the real code by the S oracle (harness/rolescheck.go, corpus/hist.txt):
+     blinder_atomic (Input.GetUtxo writes the range proof), finalized_inputs_frozen (AddInIssuance on a
+     finalized input), reachable_roundtrips (setters that write before SanityCheck).
+   The counterexamples of the first runs that /repo has repaired since are Examples that now behave. *)
 From Coq Require Import List NArith ZArith Bool Lia.
 From Coq Require Import ZifyBool ZifyN ZifyNat.
 From GE Require Import Model.Roles.
@@ -192,15 +193,27 @@ Proof.
   try (inversion H; subst; eapply blind_outs_len; eauto).
 Qed.
 
+Lemma staged_parts_len : forall p x auxs outs sc r,
+  (forall a o s r', x = ((a, o, s), r') -> length o = length (p_outs p)) ->
+  staged_parts p x = ((auxs, outs, sc), r) -> length outs = length (p_outs p).
+Proof.
+  intros p [[[a o] s0] r'] auxs outs sc r Hx H; unfold staged_parts in H; cbn [snd] in H.
+  destruct r'; inversion H; subst; auto; eapply Hx; reflexivity.
+Qed.
+
 Lemma local_step_len : forall p o auxs outs sc r,
   local_step p o = ((auxs, outs, sc), r) -> length outs = length (p_outs p).
 Proof.
-  intros p o auxs outs sc r H; destruct o; cbn [local_step] in H;
+  intro p.
+  assert (forall i g f, forall a o s r', on_input p i g f = ((a, o, s), r') -> length o = length (p_outs p)) as Hon.
+  { intros i g f a o s r' E; apply on_input_parts in E as [E _]; subst; reflexivity. }
+  intros o auxs outs sc r H; destruct o; cbn [local_step] in H;
+    try (eapply staged_parts_len in H; [exact H|apply Hon]);
     try (apply on_input_parts in H as [H _]; subst; reflexivity);
     try (apply on_output_parts in H as [H _]; exact H);
     try (inversion H; subst; reflexivity).
   - (* sign *) destruct (in_index p i true) as [[[n c] a]|o]; [|inversion H; subst; reflexivity].
-    apply on_input_parts in H as [H _]; subst; reflexivity.
+    eapply staged_parts_len in H; [exact H|apply Hon].
   - eapply do_blind_len; eauto.
   - (* finalize *)
     destruct ((i <? 0)%Z || (Z.of_nat (length (p_auxs p)) <=? i)%Z); [inversion H; subst; reflexivity|].
@@ -212,7 +225,7 @@ Proof.
     destruct (nth_error (p_auxs p) (Z.to_nat i)); [|inversion H; subst; reflexivity].
     destruct (maybe_finalize_local c a); inversion H; subst; reflexivity.
   - destruct (finalize_loop finalize_local (p_cores p) 0 (length (p_cores p)) (p_auxs p) (p_outs p) (g_scalars p)).
-    inversion H; subst; reflexivity.
+    eapply staged_parts_len in H; [exact H|]. intros a0 o0 s0 r0 E; inversion E; reflexivity.
   - destruct (finalize_loop maybe_finalize_local (p_cores p) 0 (length (p_cores p)) (p_auxs p) (p_outs p) (g_scalars p)).
     inversion H; subst; reflexivity.
 Qed.
@@ -253,11 +266,12 @@ Proof.
   - (* AddInputs *) cbn [step].
     destruct (negb (forallb (fun a => ia_cls a =? 0) l)); [apply SR_same, same_skel_refl|].
     destruct (add_inputs p l) as [p'|] eqn:E; [|apply SR_same, same_skel_refl].
-    cbn [fst]. eapply SR_ins; eauto.
+    unfold publish; destruct (sanity p'); cbn [fst]; [eapply SR_ins; eauto|apply SR_same, same_skel_refl].
   - (* AddOutputs *) cbn [step].
     destruct (negb (forallb outarg_valid l)); [apply SR_same, same_skel_refl|].
     destruct (add_outputs p (map to_outp l)) as [p'|] eqn:E; [|apply SR_same, same_skel_refl].
-    cbn [fst]. eapply SR_outs; [apply same_skel_refl|eauto|apply same_skel_refl].
+    unfold publish; destruct (sanity p'); cbn [fst]; [|apply SR_same, same_skel_refl].
+    eapply SR_outs; [apply same_skel_refl|eauto|apply same_skel_refl].
   - (* AddInIssuance *) cbn [step]; unfold do_issue.
     destruct (negb (issue_validate a)); [apply SR_same, same_skel_refl|].
     destruct (p_cores p) eqn:Ecs; [apply SR_same, same_skel_refl|].
@@ -265,14 +279,17 @@ Proof.
     destruct (a_entropy ax); [apply SR_same, same_skel_refl|].
     destruct (c_short c0); [apply SR_same, same_skel_refl|].
     match goal with |- context[add_outputs ?p1 ?l] => destruct (add_outputs p1 l) as [p2|] eqn:E end.
-    + cbn [fst]. eapply SR_outs; [|eauto|apply same_skel_refl]. apply same_skel_upd; reflexivity.
-    + cbn [fst]. apply SR_same, same_skel_upd; reflexivity.
+    + unfold publish; destruct (sanity p2); cbn [fst]; [|apply SR_same, same_skel_refl].
+      eapply SR_outs; [|eauto|apply same_skel_refl]. apply same_skel_upd; reflexivity.
+    + apply SR_same, same_skel_refl.
   - (* AddInReissuance *) cbn [step]; unfold do_reissue.
     destruct (in_index p i true) as [[[n c0] ax]|o]; [|apply SR_same, same_skel_refl].
     destruct (a_entropy ax); [apply SR_same, same_skel_refl|].
     destruct (negb (reissue_validate a)); [apply SR_same, same_skel_refl|].
     match goal with |- context[add_outputs ?p1 ?l] => destruct (add_outputs p1 l) as [p2|] eqn:E end.
-    + cbn [fst]. eapply SR_outs; [apply same_skel_refl|eauto|]. apply same_skel_upd; reflexivity.
+    + unfold publish.
+      match goal with |- context[sanity ?q] => destruct (sanity q) end; cbn [fst]; [|apply SR_same, same_skel_refl].
+      eapply SR_outs; [apply same_skel_refl|eauto|]. apply same_skel_upd; reflexivity.
     + apply SR_same, same_skel_refl.
 Qed.
 
@@ -392,25 +409,26 @@ Proof.
   - apply negb_false_iff in Hh1; rewrite Hh1; reflexivity.
 Qed.
 
-(* the shape on which Locktime() and BIP-370 disagree: an input that supports only a time lock
-   next to an input that has a height lock *)
-Definition kind_conflict (p : pset) : bool :=
-  existsb time_only (p_cores p) && existsb (fun c => negb (c_height c =? 0)) (p_cores p).
-
-(* full statement (refuted below):
-     forall ins outs fb p0 ops, init ins outs fb = IOk p0 ->
-       locktime (run p0 ops) = spec_locktime (run p0 ops) *)
-Theorem locktime_is_max_of_selected_kind_partial : forall p,
-  kind_conflict p = false -> locktime p = spec_locktime p.
+Lemma time_only_seen_eq : forall cs,
+  existsb (fun c => (0 <? c_time c) && (c_height c =? 0)) cs = existsb time_only cs.
 Proof.
-  intros p Hc; unfold locktime, spec_locktime, kind_conflict, max_height, max_time in *.
-  rewrite !fold_max_pos; cbn [N.ltb N.compare orb].
-  destruct (existsb time_only (p_cores p)) eqn:ET; cbn [andb] in Hc.
-  - rewrite Hc.
+  induction cs as [|c cs IH]; cbn [existsb]; auto. rewrite IH. f_equal. unfold time_only. f_equal.
+  destruct (c_time c =? 0) eqn:E; [apply N.eqb_eq in E; rewrite E; reflexivity|].
+  apply N.eqb_neq in E. apply N.ltb_lt. lia.
+Qed.
+
+(* Locktime() is the largest required locktime of the kind BIP-370 selects, else the fallback: every packet *)
+Theorem locktime_is_max_of_selected_kind : forall p, locktime p = spec_locktime p.
+Proof.
+  intros p; unfold locktime, spec_locktime, max_height, max_time.
+  rewrite !fold_max_pos, time_only_seen_eq; cbn [N.ltb N.compare orb].
+  destruct (existsb time_only (p_cores p)) eqn:ET; cbn [negb andb].
+  - rewrite andb_false_r.
     assert (existsb (fun c => negb (c_time c =? 0)) (p_cores p) = true) as ->; [|reflexivity].
     apply existsb_exists in ET as [c [Hin Hc']]. apply existsb_exists; exists c; split; auto.
     unfold time_only in Hc'; apply andb_prop in Hc' as [H _]; exact H.
-  - destruct (existsb (fun c => negb (c_height c =? 0)) (p_cores p)) eqn:EH; [reflexivity|].
+  - rewrite andb_true_r.
+    destruct (existsb (fun c => negb (c_height c =? 0)) (p_cores p)) eqn:EH; [reflexivity|].
     destruct (existsb (fun c => negb (c_time c =? 0)) (p_cores p)) eqn:ETT; [|reflexivity].
     rewrite (time_without_height _ ETT EH) in ET; discriminate.
 Qed.
@@ -418,76 +436,173 @@ Qed.
 Definition mk_in (t idx height time : N) : inarg :=
   {| ia_cls := 0; ia_t := t; ia_idx := idx; ia_seq := 0; ia_height := height; ia_time := time |}.
 
-(* a time-only input 600000000 and an input with both (500000005, 100): Locktime() answers 100 *)
-Theorem locktime_is_max_of_selected_kind_refuted :
-  exists ins outs fb p0 ops, init ins outs fb = IOk p0 /\
-    locktime (run p0 ops) = 100 /\ spec_locktime (run p0 ops) = 600000000.
-Proof.
-  exists [mk_in 0 0 0 600000000; mk_in 1 0 100 500000005], [], None.
-  eexists; exists []; split; [vm_compute; reflexivity|]. split; vm_compute; reflexivity.
-Qed.
+(* the old counterexample (before fix 3710385 Locktime() answered 100): a time-only input 600000000 and an
+   input with both (500000005, 100) *)
+Example locktime_time_only_next_to_both :
+  exists p0, init [mk_in 0 0 0 600000000; mk_in 1 0 100 500000005] [] None = IOk p0 /\ locktime p0 = 600000000.
+Proof. eexists; split; vm_compute; reflexivity. Qed.
 
 (* ===== C11: multi-part operations are all-or-nothing ===== *)
-Definition is_add_io (o : op) : bool := match o with OAddInputs _ | OAddOutputs _ => true | _ => false end.
+Lemma upd_same : forall p, upd p (p_auxs p) (p_outs p) (g_scalars p) = p.
+Proof. destruct p; reflexivity. Qed.
 
-(* full statement (refuted below):
-     forall p o, snd (step p o) = Err -> is_multi_part o = true -> fst (step p o) = p *)
-(* AddInputs / AddOutputs change nothing when they fail — unless the failing check is the
-   SanityCheck that runs AFTER the staged copy was published (then the result fails SanityCheck) *)
-Theorem multi_part_ops_atomic_partial : forall p o,
-  snd (step p o) = Err -> is_add_io o = true -> sanity (fst (step p o)) = true -> fst (step p o) = p.
+Lemma staged_parts_not_ok : forall p x parts r, staged_parts p x = (parts, r) -> r <> Ok ->
+  parts = (p_auxs p, p_outs p, g_scalars p).
 Proof.
-  intros p o He Hio Hs; destruct o; try discriminate; cbn [step] in *; revert He Hs.
-  - destruct (negb (forallb (fun a => ia_cls a =? 0) l)); [reflexivity|].
-    destruct (add_inputs p l) as [p'|]; [|reflexivity]. cbn [fst snd]. intros He Hs. rewrite Hs in He; discriminate.
-  - destruct (negb (forallb outarg_valid l)); [reflexivity|].
-    destruct (add_outputs p (map to_outp l)) as [p'|]; [|reflexivity]. cbn [fst snd]. intros He Hs. rewrite Hs in He; discriminate.
+  intros p [parts0 r0] parts r H Hr; unfold staged_parts in H; cbn [snd] in H.
+  destruct r0; inversion H; subst; auto; congruence.
 Qed.
 
-(* every multi-part operation that fails leaves counts, outpoints, locktimes, flags and the number of
-   outputs as they were — with the same exception *)
-Theorem multi_part_ops_skeleton_atomic_partial : forall p o,
-  snd (step p o) = Err -> is_multi_part o = true -> sanity (fst (step p o)) = true -> same_skel p (fst (step p o)).
-Proof.
-  intros p o He Hm Hs.
-  destruct (is_add_io o) eqn:Eio; [rewrite (multi_part_ops_atomic_partial p o He Eio Hs); apply same_skel_refl|].
-  assert (forall o', step p o' = (let '((auxs, outs, sc), r) := local_step p o' in (upd p auxs outs sc, r)) ->
-          same_skel p (fst (step p o'))) as Hloc.
-  { intros o' E; rewrite E. destruct (local_step p o') as [[[auxs outs] sc] r] eqn:E'.
-    cbn [fst]. apply same_skel_upd. eapply local_step_len; eauto. }
-  destruct o; try discriminate; try (apply Hloc; reflexivity).
-  - (* issue *) cbn [step] in *; unfold do_issue in *. revert He Hs.
-    destruct (negb (issue_validate a)); [intros; apply same_skel_refl|].
-    destruct (p_cores p) eqn:Ecs; [intros; apply same_skel_refl|].
-    destruct (in_index p i true) as [[[n c0] ax]|o]; [|intros; apply same_skel_refl].
-    destruct (a_entropy ax); [intros; apply same_skel_refl|].
-    destruct (c_short c0); [intros; apply same_skel_refl|].
-    match goal with |- context[add_outputs ?p1 ?l] => destruct (add_outputs p1 l) as [p2|] eqn:E end.
-    + cbn [fst snd]. intros He Hs. rewrite Hs in He; discriminate.
-    + cbn [fst]. intros. apply same_skel_upd; reflexivity.
-  - (* reissue *) cbn [step] in *; unfold do_reissue in *. revert He Hs.
-    destruct (in_index p i true) as [[[n c0] ax]|o]; [|intros; apply same_skel_refl].
-    destruct (a_entropy ax); [intros; apply same_skel_refl|].
-    destruct (negb (reissue_validate a)); [intros; apply same_skel_refl|].
-    match goal with |- context[add_outputs ?p1 ?l] => destruct (add_outputs p1 l) as [p2|] eqn:E end.
-    + cbn [fst snd]. intros He Hs. rewrite Hs in He; discriminate.
-    + intros; apply same_skel_refl.
-Qed.
+Lemma publish_err : forall p q, snd (publish p q) = Err -> fst (publish p q) = p.
+Proof. intros p q; unfold publish; destruct (sanity q); cbn; [discriminate|reflexivity]. Qed.
 
+Definition is_blind (o : op) : bool := match o with OBlind _ => true | _ => false end.
 Definition issue_plain : issue_args :=
   {| is_prec := 0; is_contract := 0; is_aamt := 1000; is_tamt := 0; is_aaddr := 1; is_taddr := 0; is_blinded := false |}.
 
-(* outputs locked: AddInIssuance returns an error and leaves the issuance on the input (shallow Copy) *)
-Theorem multi_part_ops_atomic_refuted :
-  exists ins outs fb p0 ops o, init ins outs fb = IOk p0 /\ is_multi_part o = true /\
-    snd (step (run p0 ops) o) = Err /\ fst (step (run p0 ops) o) <> run p0 ops
-    /\ sanity (fst (step (run p0 ops) o)) = true.
+(* when a multi-part operation returns an error the packet is unchanged — every multi-part operation
+   but the blinder, whose constructor calls the getter that writes (below) *)
+Theorem multi_part_ops_atomic : forall p o,
+  snd (step p o) = Err -> is_multi_part o = true -> is_blind o = false -> fst (step p o) = p.
 Proof.
-  exists [mk_in 0 0 0 0], [], None. eexists. exists [OSetMod (Some 1)], (OIssue 0%Z issue_plain).
-  split; [vm_compute; reflexivity|]. split; [reflexivity|]. split; [vm_compute; reflexivity|].
-  split; [|vm_compute; reflexivity].
+  intros p o He Hm Hb.
+  assert (forall o', step p o' = (let '((auxs, outs, sc), r) := local_step p o' in (upd p auxs outs sc, r)) ->
+          (forall parts r, local_step p o' = (parts, r) -> r <> Ok -> parts = (p_auxs p, p_outs p, g_scalars p)) ->
+          snd (step p o') = Err -> fst (step p o') = p) as Hloc.
+  { intros o' E Hp. rewrite E. destruct (local_step p o') as [[[auxs outs] sc] r] eqn:E'. cbn [fst snd]. intro Hr.
+    assert ((auxs, outs, sc) = (p_auxs p, p_outs p, g_scalars p)) as Hq by (eapply Hp; [reflexivity|congruence]).
+    inversion Hq; subst. apply upd_same. }
+  destruct o; try discriminate.
+  - (* AddInputs *) cbn [step] in *.
+    destruct (negb (forallb (fun a => ia_cls a =? 0) l)); [reflexivity|].
+    destruct (add_inputs p l) as [p'|]; [|reflexivity]. apply publish_err; exact He.
+  - cbn [step] in *.
+    destruct (negb (forallb outarg_valid l)); [reflexivity|].
+    destruct (add_outputs p (map to_outp l)) as [p'|]; [|reflexivity]. apply publish_err; exact He.
+  - (* issue *) cbn [step] in *; unfold do_issue in *. revert He.
+    destruct (negb (issue_validate a)); [reflexivity|].
+    destruct (p_cores p) eqn:Ecs; [reflexivity|].
+    destruct (in_index p i true) as [[[n c0] ax]|o]; [|reflexivity].
+    destruct (a_entropy ax); [reflexivity|].
+    destruct (c_short c0); [reflexivity|].
+    match goal with |- context[add_outputs ?p1 ?l] => destruct (add_outputs p1 l) as [p2|] eqn:E end; [|reflexivity].
+    apply publish_err.
+  - (* reissue *) cbn [step] in *; unfold do_reissue in *. revert He.
+    destruct (in_index p i true) as [[[n c0] ax]|o]; [|reflexivity].
+    destruct (a_entropy ax); [reflexivity|].
+    destruct (negb (reissue_validate a)); [reflexivity|].
+    match goal with |- context[add_outputs ?p1 ?l] => destruct (add_outputs p1 l) as [p2|] eqn:E end; [|reflexivity].
+    apply publish_err.
+  - (* sign *) apply Hloc; [reflexivity| |exact He]. cbn [local_step]. intros parts r.
+    destruct (in_index p i true) as [[[n c0] ax]|o]; [apply staged_parts_not_ok|].
+    intros H _; inversion H; reflexivity.
+  - apply Hloc; [reflexivity| |exact He]. cbn [local_step]. intros parts r. apply staged_parts_not_ok.
+  - apply Hloc; [reflexivity| |exact He]. cbn [local_step]. intros parts r. apply staged_parts_not_ok.
+  - (* FinalizeAll *) apply Hloc; [reflexivity| |exact He]. cbn [local_step]. intros parts r.
+    destruct (finalize_loop finalize_local (p_cores p) 0 (length (p_cores p)) (p_auxs p) (p_outs p) (g_scalars p)).
+    apply staged_parts_not_ok.
+Qed.
+
+(* the blinder: a failing (or panicking) call leaves everything as it was EXCEPT the range proof that
+   Input.GetUtxo copies into the stored previous outputs *)
+Definition forget (a : aux) : aux := set_a_nwrp false a.
+
+Lemma get_utxo_forget : forall c a u a', get_utxo c a = GuSome u a' -> forget a' = forget a.
+Proof.
+  intros c a u a' H; unfold get_utxo in H.
+  destruct (a_w a); [inversion H; reflexivity|].
+  destruct (negb (a_nw a)); [discriminate|].
+  destruct (nth_error prevouts (N.to_nat (N.min (c_idx c) 1000))); [|discriminate].
+  inversion H; subst. destruct a; reflexivity.
+Qed.
+
+Lemma map_forget_set_nth : forall n a a' l, nth_error l n = Some a -> forget a' = forget a ->
+  map forget (set_nth n a' l) = map forget l.
+Proof.
+  intros n a a' l; revert n; induction l as [|h t IH]; intros [|n] Hn Hf; cbn in *; try discriminate; auto.
+  - inversion Hn; subst; rewrite Hf; reflexivity.
+  - f_equal; auto.
+Qed.
+
+Definition bres_auxs (b : bres) : list aux := match b with BGo x => x | BStop x _ => x end.
+
+Lemma owned_validate_forget : forall p owned auxs,
+  map forget (bres_auxs (owned_validate p auxs owned)) = map forget auxs.
+Proof.
+  intros p; induction owned as [|i rest IH]; intros auxs; cbn [owned_validate]; [reflexivity|].
+  destruct (Z.of_N (g_nin p) - 1 <? Z.of_N i)%Z; [reflexivity|].
+  destruct (nth_error (p_cores p) (N.to_nat i)) as [c|]; [|reflexivity].
+  destruct (nth_error auxs (N.to_nat i)) as [a|] eqn:Ea; [|reflexivity].
+  destruct (get_utxo c a) as [| |u a'] eqn:Eg; [reflexivity|reflexivity|].
+  rewrite IH. eapply map_forget_set_nth; eauto. eapply get_utxo_forget; eauto.
+Qed.
+
+Lemma prevout_loop_forget : forall owned cs n auxs,
+  map forget (bres_auxs (prevout_loop cs n auxs owned)) = map forget auxs.
+Proof.
+  intros owned; induction cs as [|c cs IH]; intros n auxs; cbn [prevout_loop]; [reflexivity|].
+  destruct (existsb (fun i => i =? N.of_nat n) owned); [apply IH|].
+  destruct (nth_error auxs n) as [a|] eqn:Ea; [|reflexivity].
+  destruct (get_utxo c a) as [| |u a'] eqn:Eg; [reflexivity|reflexivity|].
+  rewrite IH. eapply map_forget_set_nth; eauto. eapply get_utxo_forget; eauto.
+Qed.
+
+Lemma do_blind_not_ok : forall p a auxs outs sc r, do_blind p a = ((auxs, outs, sc), r) -> r <> Ok ->
+  outs = p_outs p /\ sc = g_scalars p /\ map forget auxs = map forget (p_auxs p).
+Proof.
+  intros p a auxs outs sc r H Hr; unfold do_blind in H.
+  destruct (negb (sanity p)); [inversion H; auto|].
+  destruct (negb (needs_blinding p)); [inversion H; auto|].
+  destruct (bl_owned a) as [|o0 orest] eqn:Eo; [inversion H; auto|]. rewrite <- Eo in H.
+  pose proof (owned_validate_forget p (bl_owned a) (p_auxs p)) as F1.
+  destruct (owned_validate p (p_auxs p) (bl_owned a)) as [auxs1|auxs1 o1]; cbn [bres_auxs] in F1;
+    [|inversion H; subst; auto].
+  destruct (is_fully_blinded p); [inversion H; subst; auto|].
+  destruct (existsb (fun x => (Z.of_N (g_nin p) - 1 <? Z.of_N (fst x))%Z) (bl_iss a)); [inversion H; subst; auto|].
+  destruct (negb (outargs_validate p (bl_last a) (sort_by_idx (bl_outs a)))); [inversion H; subst; auto|].
+  pose proof (prevout_loop_forget (bl_owned a) (p_cores p) 0 auxs1) as F2.
+  destruct (prevout_loop (p_cores p) 0 auxs1 (bl_owned a)) as [auxs2|auxs2 o2]; cbn [bres_auxs] in F2;
+    [|inversion H; subst; repeat split; auto; congruence].
+  assert (map forget auxs2 = map forget (p_auxs p)) as F3 by congruence.
+  destruct (negb (outargs_proofs p a (sort_by_idx (bl_outs a)))); [inversion H; subst; auto|].
+  destruct (bl_gfail a =? 1); [inversion H; subst; auto|].
+  destruct (sort_by_idx (bl_outs a)) as [|x0 xs] eqn:Es; [inversion H; subst; auto|]. rewrite <- Es in H.
+  destruct (blind_outs a (sort_by_idx (bl_outs a)) (p_outs p)) as [outs' done].
+  destruct (negb done); [inversion H; subst; auto|].
+  match type of H with (if ?b then _ else _) = _ => destruct b end; inversion H; subst; auto. congruence.
+Qed.
+
+Theorem blinder_atomic_partial : forall p a, snd (step p (OBlind a)) <> Ok ->
+  exists auxs, fst (step p (OBlind a)) = upd p auxs (p_outs p) (g_scalars p)
+               /\ map forget auxs = map forget (p_auxs p).
+Proof.
+  intros p a Hr. cbn [step local_step] in *.
+  destruct (do_blind p a) as [[[auxs outs] sc] r] eqn:E. cbn [fst snd] in *.
+  destruct (do_blind_not_ok _ _ _ _ _ _ E Hr) as (-> & -> & F). exists auxs; split; auto.
+Qed.
+
+(* full statement for the blinder (refuted): snd (step p (OBlind a)) = Err -> fst (step p (OBlind a)) = p.
+   Witness: non-witness utxo + utxo range proof on the owned input, surjection proof refused by the validator *)
+Definition blind_refused : blind_args :=
+  {| bl_last := true; bl_owned := [0]; bl_iss := []; bl_outs := [(0, 0)]; bl_surj := false; bl_basset := true;
+     bl_range := true; bl_bvalue := true; bl_gfail := 0; bl_scalar := 7 |}.
+
+Theorem blinder_atomic_refuted :
+  exists ins outs fb p0 ops, init ins outs fb = IOk p0 /\
+    snd (step (run p0 ops) (OBlind blind_refused)) = Err /\ fst (step (run p0 ops) (OBlind blind_refused)) <> run p0 ops.
+Proof.
+  exists [{| ia_cls := 0; ia_t := 0; ia_idx := 0; ia_seq := 0; ia_height := 0; ia_time := 0 |}],
+         [{| oa_cls := 0; oa_amount := 1000; oa_script := Some (SWpkh 1); oa_bk := 1; oa_bidx := 0 |}], None.
+  eexists. exists [ONwUtxo 0%Z 0; OUtxoRp 0%Z true].
+  split; [vm_compute; reflexivity|]. split; [vm_compute; reflexivity|].
   vm_compute. intro H. discriminate H.
 Qed.
+
+(* the old counterexample of atomicity (shallow Copy): outputs locked, AddInIssuance fails — and now leaves nothing *)
+Example issue_with_outputs_locked :
+  exists p0, init [{| ia_cls := 0; ia_t := 0; ia_idx := 0; ia_seq := 0; ia_height := 0; ia_time := 0 |}] [] None = IOk p0 /\
+    step (run p0 [OSetMod (Some 1)]) (OIssue 0%Z issue_plain) = (run p0 [OSetMod (Some 1)], Err).
+Proof. eexists; split; vm_compute; reflexivity. Qed.
 
 (* ===== C11: an already finalized input is never altered ===== *)
 Lemma in_index_inl : forall p i g n c a, in_index p i g = inl (n, c, a) ->
@@ -568,23 +683,23 @@ Proof.
   intros p o n a Hsc Hn Hf; destruct o; try discriminate; cbn [step].
   - cbn; auto.
   - destruct (negb (forallb (fun a0 => ia_cls a0 =? 0) l)); [auto|].
-    destruct (add_inputs p l) as [p'|] eqn:E; [|auto]. cbn [fst].
+    destruct (add_inputs p l) as [p'|] eqn:E; [|auto]. unfold publish; destruct (sanity p'); cbn [fst]; [|auto].
     apply add_inputs_inv in E as (_ & _ & _ & _ & _ & _ & A7 & _). rewrite A7.
     rewrite nth_error_app1; auto. apply nth_error_Some; congruence.
   - destruct (negb (forallb outarg_valid l)); [auto|].
-    destruct (add_outputs p (map to_outp l)) as [p'|] eqn:E; [|auto]. cbn [fst].
+    destruct (add_outputs p (map to_outp l)) as [p'|] eqn:E; [|auto]. unfold publish; destruct (sanity p'); cbn [fst]; [|auto].
     apply add_outputs_inv in E as (_ & _ & _ & _ & _ & _ & A7 & _). rewrite A7; auto.
   - (* sign *) cbn [local_step].
     destruct (in_index p i true) as [[[m c] x]|o] eqn:E; [|cbn; auto].
     match goal with |- context[on_input p i true ?f] => destruct (on_input p i true f) as [[[auxs outs] sc] r] eqn:Eo end.
-    cbn. eapply on_input_frozen; eauto.
+    unfold staged_parts; cbn [snd]. destruct r; cbn; auto. eapply on_input_frozen; eauto.
     intros c0 a0 H0; unfold sign_local; rewrite H0; reflexivity.
   - cbn [local_step].
     match goal with |- context[on_input p i true ?f] => destruct (on_input p i true f) as [[[auxs outs] sc] r] eqn:Eo end.
-    cbn. eapply on_input_frozen; eauto. intros c0 a0 H0; cbn beta; rewrite H0; reflexivity.
+    unfold staged_parts; cbn [snd]. destruct r; cbn; auto. eapply on_input_frozen; eauto. intros c0 a0 H0; cbn beta; rewrite H0; reflexivity.
   - cbn [local_step].
     match goal with |- context[on_input p i true ?f] => destruct (on_input p i true f) as [[[auxs outs] sc] r] eqn:Eo end.
-    cbn. eapply on_input_frozen; eauto. intros c0 a0 H0; cbn beta; rewrite H0; reflexivity.
+    unfold staged_parts; cbn [snd]. destruct r; cbn; auto. eapply on_input_frozen; eauto. intros c0 a0 H0; cbn beta; rewrite H0; reflexivity.
   - (* finalize *) cbn [local_step].
     destruct ((i <? 0)%Z || (Z.of_nat (length (p_auxs p)) <=? i)%Z); [cbn; auto|].
     destruct (nth_error (p_cores p) (Z.to_nat i)) as [c|]; [|cbn; auto].
@@ -599,7 +714,7 @@ Proof.
     destruct (maybe_finalize_local c x) as [a' r']; cbn; exact Hr.
   - cbn [local_step].
     destruct (finalize_loop finalize_local (p_cores p) 0 (length (p_cores p)) (p_auxs p) (p_outs p) (g_scalars p)) as [auxs r] eqn:E.
-    cbn. eapply finalize_loop_frozen; eauto. apply finalize_local_keeps.
+    unfold staged_parts; cbn [snd]. destruct r; cbn; auto. eapply finalize_loop_frozen; eauto. apply finalize_local_keeps.
   - cbn [local_step].
     destruct (finalize_loop maybe_finalize_local (p_cores p) 0 (length (p_cores p)) (p_auxs p) (p_outs p) (g_scalars p)) as [auxs r] eqn:E.
     cbn. eapply finalize_loop_frozen; eauto. apply maybe_finalize_local_keeps.
@@ -620,7 +735,7 @@ Proof.
 Qed.
 
 (* ===== C11: the packet serialises and re-parses to itself ===== *)
-(* full statement (refuted below, three ways):
+(* full statement (refuted below):
      forall ins outs fb p0 ops, init ins outs fb = IOk p0 -> rt (run p0 ops) = true *)
 
 (* a failed AddInWitnessScript (no witness utxo) leaves the script: serialises, no longer parses *)
@@ -632,24 +747,8 @@ Proof.
   split; [vm_compute; reflexivity|]. repeat split; vm_compute; reflexivity.
 Qed.
 
-(* an input with both required locktimes: the height is written under the time-locktime key *)
-Theorem reachable_roundtrips_refuted_both_locktimes :
-  exists ins outs fb p0, init ins outs fb = IOk p0 /\ rt p0 = false.
-Proof.
-  exists [mk_in 0 0 100 500000005], [], None. eexists. split; vm_compute; reflexivity.
-Qed.
-
-(* 253 inputs: the count is written as a three-byte varint and read back from one byte *)
-Theorem reachable_roundtrips_refuted_count_253 :
-  exists ins outs fb p0 o, init ins outs fb = IOk p0 /\ snd (step p0 o) = Ok /\ rt (fst (step p0 o)) = false
-    /\ g_nin (fst (step p0 o)) = 253.
-Proof.
-  exists [], [], None. eexists. exists (OAddInputs (map (fun k => mk_in 0 (N.of_nat k) 0 0) (seq 0 253))).
-  split; [vm_compute; reflexivity|]. repeat split; vm_compute; reflexivity.
-Qed.
-
 (* what the creator builds from well-formed arguments does round-trip *)
-Definition inarg_plain (a : inarg) : Prop := ia_cls a = 0 /\ (ia_time a = 0 \/ ia_height a = 0).
+Definition inarg_plain (a : inarg) : Prop := ia_cls a = 0.
 Definition outarg_plain (a : outarg) : Prop := oa_cls a = 0 /\ oa_bk a <> 2.
 
 Lemma new_outs_map : forall l p p', new_outs p l = IOk p' -> add_outputs p (map to_outp l) = Some p'.
@@ -674,10 +773,9 @@ Lemma existsb_map_false {A B} : forall (f : B -> bool) (g : A -> B) l,
 Proof. intros f g l H; induction l; cbn; auto. rewrite H; auto. Qed.
 
 Theorem reachable_roundtrips_partial : forall ins outs fb p0,
-  init ins outs fb = IOk p0 -> Forall inarg_plain ins -> Forall outarg_plain outs ->
-  (length ins < 253)%nat -> (length outs < 253)%nat -> rt p0 = true.
+  init ins outs fb = IOk p0 -> Forall inarg_plain ins -> Forall outarg_plain outs -> rt p0 = true.
 Proof.
-  intros ins outs fb p0 H Hi Ho Li Lo.
+  intros ins outs fb p0 H Hi Ho.
   pose proof (init_cm _ _ _ _ H) as [C1 C2]. unfold init in H.
   destruct (add_inputs (empty_pset fb) ins) as [p|] eqn:E; [|discriminate].
   apply new_outs_map in H.
@@ -698,25 +796,29 @@ Proof.
   2:{ intros a [Hc0 Hb]. unfold out_reparses, to_outp; cbn. rewrite Hc0; cbn.
       apply N.eqb_neq in Hb; rewrite Hb; reflexivity. }
   rewrite (forallb_map_Forall core_reparses to_core inarg_plain ins); auto.
-  2:{ intros a [Hc0 Hl]. unfold core_reparses, to_core; cbn. rewrite Hc0; cbn.
-      destruct Hl as [Hl|Hl]; rewrite Hl; cbn; rewrite ?andb_false_r; reflexivity. }
-  rewrite C1, C2, Hc, Hout, !map_length, !N.eqb_refl. cbn [andb negb nodup_n].
-  assert ((N.of_nat (length ins) <? 253) = true) as -> by (apply N.ltb_lt; lia).
-  assert ((N.of_nat (length outs) <? 253) = true) as -> by (apply N.ltb_lt; lia).
-  reflexivity.
+  2:{ intros a Hc0. unfold inarg_plain in Hc0. unfold core_reparses, to_core; cbn. rewrite Hc0; reflexivity. }
+  rewrite C1, C2, Hc, Hout, !map_length, !N.eqb_refl. reflexivity.
 Qed.
+
+(* 253 inputs in one AddInputs, an input with both locktimes, a height-only input: the shapes that did NOT
+   round-trip before fix: commits c50dc2e / 1bba04e do now (regression witnesses, also in corpus/hist.txt) *)
+Example roundtrip_regressions :
+  (exists p0, init [] [] None = IOk p0 /\
+     rt (fst (step p0 (OAddInputs (map (fun k => mk_in 0 (N.of_nat k) 0 0) (seq 0 253))))) = true)
+  /\ (exists p0, init [mk_in 0 0 100 500000005; mk_in 1 0 100 0] [] None = IOk p0 /\ rt p0 = true).
+Proof. split; eexists; (split; [vm_compute; reflexivity|]); vm_compute; reflexivity. Qed.
 
 (* ---------- the hypotheses of the theorems are satisfiable: a packet with two inputs and an output,
    signed, finalized, with a failed operation in the middle ---------- *)
 Definition ex_ins := [mk_in 0 0 0 0; mk_in 1 0 0 0].
 Definition ex_outs := [{| oa_cls := 0; oa_amount := 1000; oa_script := Some (SWpkh 1); oa_bk := 0; oa_bidx := 0 |}].
 Definition ex_ops :=
-  [OWUtxo 0%Z (Some {| u_script := SWpkh 0; u_conf := false |}); OWScript 1%Z (Some (SMs 2));
+  [OWUtxo 0%Z (Some {| u_script := SWpkh 0; u_conf := false |}); OAddInputs [mk_in 0 0 0 0] (* duplicate: fails *);
    OSign 0%Z true 1 (Some 0) None None; OFinalize 0%Z; OAddInputs [mk_in 2 1 0 0]].
 
 Example ex_init_ok : exists p0, init ex_ins ex_outs (Some 77) = IOk p0 /\ g_nin (run p0 ex_ops) = 3
-  /\ inarg_plain (mk_in 0 0 0 0) /\ kind_conflict (run p0 ex_ops) = false.
-Proof. eexists; split; [vm_compute; reflexivity|]. repeat split; try (vm_compute; reflexivity). left; reflexivity. Qed.
+  /\ inarg_plain (mk_in 0 0 0 0) /\ locktime (run p0 ex_ops) = 77.
+Proof. eexists; split; [vm_compute; reflexivity|]. repeat split; vm_compute; reflexivity. Qed.
 
 Example ex_finalized : exists p0 a, init ex_ins ex_outs None = IOk p0 /\
   nth_error (p_auxs (run p0 ex_ops)) 0 = Some a /\ finalized a = true /\ frozen_scope OFinalizeAll = true.
